@@ -552,7 +552,7 @@ def one_row(draw, L, n_states):
 def table_case(draw, form, max_rows=6, max_len=14):
     n_states = draw(st.integers(2, 4))
     nrows = 1 if form == "1d" else draw(st.integers(1, max_rows))
-    min_len = 2 if form == "ragged" else (0 if form == "1d" else 1)
+    min_len = 1 if form == "ragged" else (0 if form == "1d" else 1)      # one-frame trajectories have no transitions
     L = draw(st.one_of(st.integers(min_len, 4), st.integers(min_len, max_len)))
     rows = []
     for _ in range(nrows):
@@ -560,6 +560,10 @@ def table_case(draw, form, max_rows=6, max_len=14):
         if form == "ragged" and draw(st.booleans()):
             Lr = draw(st.integers(min_len, max_len))
         rows.append(draw(one_row(Lr, n_states)))
+    if form == "ragged" and all(len(r) < 2 for r in rows):
+        # a ragged table in which NO trajectory has two frames has an entirely empty difference table, which a
+        # RaggedArray cannot represent (C05: may raise); at least one trajectory has a transition slot
+        rows[draw(st.integers(0, nrows - 1))] = draw(one_row(draw(st.integers(2, max_len)), n_states))
     dtype = draw(st.sampled_from(["int16", "int32", "int64", "int8", "uint16"]))
     # one table in four relabels the small state ids with widely spaced ones (state ids need not be small: a difference
     # that is a multiple of 2^8 / 2^16 / 2^32 must still count as a transition)
